@@ -77,6 +77,9 @@ Definition dec_dinner (l : list Z) : option (dinner * list Z) :=
       if k =? 0 then match t with [] => None | c :: t' => Some (DIChar c, t') end
       else if k =? 1 then s <- dec_bytes t ;; Some (DIStr (fst s), snd s)
       else if k =? 3 then s <- dec_bytes t ;; Some (DIStrS (fst s), snd s)
+      else if k =? 4 then s <- dec_bytes t ;; Some (DILt (fst s), snd s)
+      else if k =? 5 then s <- dec_bytes t ;; Some (DIComment (fst s), snd s)
+      else if k =? 6 then s <- dec_bytes t ;; Some (DIPI (fst s), snd s)
       else None
   end.
 
